@@ -22,4 +22,11 @@ package sqltypes
 //@   ensures nil_is_zero: !typeis(src, "string") && !typeis(src, "int64") && !typeis(src, "*int64") && !typeis(src, "time.Duration") && !typeis(src, "*time.Duration") && err == nil ==> deref(i) == 0
 //@   ensures garbage_rejected: typeis(src, "string") && !rematch(pgIntervalRegexp, asstring(src)) && !durparses(asstring(src)) ==> err != nil
 //@   ensures failed_scan_keeps_value: typeis(src, "string") && err != nil ==> deref(i) == old(deref(i))
-//@   modifies B:sqltypes.Interval:
+//@   modifies B:sqltypes.Interval:, B:time.Duration:
+
+// adjustDuration only ever writes the accumulator it is given (keeps the path count of Scan small; the value of a
+// PostgreSQL-format interval is not specified by these contracts).
+//@ func adjustDuration(d, value, scale) (err)
+//@   property C17
+//@   requires d != nil
+//@   modifies B:time.Duration:
